@@ -156,6 +156,8 @@ def run_nondeg(c):
     n = d + 1
     S, _ = quadric_matrix(c["n"], c["sig"], n)
     Sa = pow2_normalise(np.array([[float(v) for v in r] for r in S])) * C.scale_value(c["s"])
+    if c["what"] != "cone3" and abs(np.linalg.det(Sa)) < 1e-6:
+        raise Skip("determinant within two orders of magnitude of the library's absolute tolerance 1e-8")
     Q = Quadric(Sa)
     ck = Checker()
     dg, f = call("is_degenerate", lambda: Q.is_degenerate)
